@@ -432,6 +432,7 @@ LoadOps ==
                    "offset_inverted", "cursor_type_unknown", "data_set_dangling", "data_string", "data_incomplete"}}
     \cup {L("json", "ann", i, o, a) : i \in 1..Min2(NAnnDoc, 2), o \in {"tempid", "tempid_target", "data_tempid"}, a \in 0..7}
     \cup {L("json", "ann", 1, "offset", a) : a \in 0..8}
+    \cup {L("json", "ann", i, "chain_offset", a) : i \in 1..Min2(NAnnDoc, 2), a \in 0..4}
     \cup {L("json", "set", 1, o, 0) : o \in {"key_dup", "key_null", "keys_string", "del_keys", "data_key_dangling", "value_type_unknown", "dup", "include_missing"}}
     \cup {L("json", "set", 1, "data_tempid", a) : a \in 0..7} \cup {L("json", "set", 1, "data_value_deep", a) : a \in {0, 3, 40}}
     \cup {L("json", "res", 1, o, 0) : o \in {"del_text", "text_number", "id_number", "include_missing", "include_self", "dup"}}
@@ -444,11 +445,18 @@ LoadOps ==
     \cup {L("csv", p, 1, o, 0) : p \in {"annotations", "manifest", "dataset"}, o \in {"empty", "delete_file"}}
     \cup {L("csv", "annotations", 1, "bitflip", a) : a \in 0..9}
 
+\* C10: data search by set / key / value test, through the store and through the dataset
+FindOps == {RO("FindData", [set |-> sk[1], key |-> sk[2], op |-> ov[1], v |-> ov[2], via |-> via]) :
+               sk \in QSetKeys \cup {<<st.sets[s].id, "">> : s \in LiveSets(st)} \cup {<<"", "">>},
+               ov \in QOpVals \cup {<<"=", [t |-> "any", s |-> "", n |-> 0, l |-> <<>>]>>, <<"=", StrVal("v2")>>, <<"!=", IntVal(1)>>, <<"=", IntVal(-7)>>},
+               via \in {"store", "set"}}
+
 Has(x) == x \in Reads
 ReadOps ==
     (IF Has("lookup") THEN SetToSeq(LookupOps) ELSE <<>>)
     \o (IF Has("offsets") THEN SetToSeq(OffsetOps) \o SetToSeq(AnnOps) \o SetToSeq(ReportOps) ELSE <<>>)
     \o (IF Has("anntext") THEN SetToSeq(AnnOps) \o SetToSeq(ReportOps) ELSE <<>>)
+    \o (IF Has("finddata") THEN SetToSeq(FindOps) ELSE <<>>)
     \o (IF Has("loads") THEN SetToSeq(LoadOps) ELSE <<>>)
     \o (IF Has("queries") THEN SetToSeq(QueryOps) ELSE <<>>)
     \o (IF Has("webanno") THEN SetToSeq({RO("WebAnno", [ann |-> ByH(x), tmpl |-> t, ns |-> n]) : x \in LiveAnns(st), t \in BOOLEAN, n \in BOOLEAN}) ELSE <<>>)
